@@ -29,10 +29,11 @@ const (
 	Empty       // empty file
 	Dangling    // symbolic link whose target does not exist
 	LnX         // symbolic link to a valid Spec file (device x) kept outside the Spec directories
+	SchemaBad   // loads without a Spec validator, refused by the builtin schema (hook timeout -1): only for checks that install the schema
 	NKinds
 )
 
-var KindNames = []string{"absent", "X", "XY", "Y", "V2", "SYN", "SEM", "EMPTY", "DANGLING", "LNX"}
+var KindNames = []string{"absent", "X", "XY", "Y", "V2", "SYN", "SEM", "EMPTY", "DANGLING", "LNX", "SCHEMA-BAD"}
 
 func (k Kind) String() string { return KindNames[k] }
 
@@ -92,6 +93,9 @@ func Content(k Kind, name, marker string) []byte {
 			return []byte(`{"cdiVersion": "0.5.0", "kind": "` + Kind1 + `", "devices": [`)
 		}
 		return []byte("cdiVersion: 0.5.0\nkind: [unclosed\n  devices: {{\n")
+	case SchemaBad:
+		doc = map[string]any{"cdiVersion": "0.5.0", "kind": "vendor3.com/hk", "devices": []any{map[string]any{"name": "d0", "containerEdits": map[string]any{
+			"hooks": []any{map[string]any{"hookName": "prestart", "path": "/hook", "timeout": -1}}}}}}
 	case Sem:
 		doc = map[string]any{"cdiVersion": "0.5.0", "kind": Kind1, "devices": []any{map[string]any{"name": "x", "containerEdits": map[string]any{}}}}
 	case Empty:
